@@ -14,6 +14,7 @@ import tempfile
 REPO = os.environ.get("VERIF_REPO", "/repo")
 PY = "/venv/bin/python"
 VERIF = os.path.dirname(os.path.dirname(os.path.abspath(__file__)))
+OUT = os.environ.get('VERIF_OUT', VERIF)      # canaries redirect evidence/replays to a scratch directory
 _build = {}
 
 
@@ -55,8 +56,8 @@ def run_script(path, timeout=120):
 
 
 def write_replay(pid, k, header, body):
-    os.makedirs(os.path.join(VERIF, 'replays'), exist_ok=True)
-    path = os.path.join(VERIF, 'replays', '%s-%d.py' % (pid, k))
+    os.makedirs(os.path.join(OUT, 'replays'), exist_ok=True)
+    path = os.path.join(OUT, 'replays', '%s-%d.py' % (pid, k))
     with open(path, 'w') as f:
         f.write('"""' + header.replace('"""', "'''") + '\n"""\n' + body)
     return path
